@@ -234,6 +234,12 @@ func (chain *BlockChain) connectBestChain(node *blockNode, block *types.BlockDet
 		iSideChain = false
 	}
 	fork := chain.bestChain.FindFork(node)
+	if fork == nil {
+		// 分叉点已经不在index中(祖先节点被DelNode或者被淘汰), 无法比较也无法重组, 不能回滚整条主链
+		chainlog.Error("connectBestChain fork point is not exist!", "nodeHeight", node.height, "nodeHash", common.ToHex(node.hash),
+			"tipHeight", tip.height, "tipHash", common.ToHex(tip.hash))
+		return nil, false, types.ErrParentBlockNoExist
+	}
 	finalized, hash := chain.finalizer.getLastFinalized()
 	if iSideChain || node.height < finalized+12 {
 
